@@ -817,7 +817,14 @@ process_verdict(Hist& h, bool in_child)
     return "ok";
   if (!fresh_result(*h.w, h.cfg, f))
     return "ok nofresh";
-  return bitwise_equal(v, f) ? "ok fresh" : "ok stale";
+  if (!bitwise_equal(v, f))
+    return "ok stale";
+  // an all-zero estimate (zero activity, or nothing within the energy window) cannot show staleness:
+  // reported separately so that the comparison with the model accepts either prediction
+  for (float x : v)
+    if (x != 0.F)
+      return "ok fresh";
+  return "ok zero";
 }
 
 static string
@@ -1174,9 +1181,9 @@ main(int argc, char** argv)
   g_orc = std::fopen((string(argv[4]) + ".oracle").c_str(), "w");
   if (!g_ops || !g_out || !g_orc)
     return 2;
-  const int n_worlds = thorough ? 12 : 4;
-  const int n_clean = thorough ? 80 : 24;
-  const int n_dirty = thorough ? 30 : 8;
+  const int n_worlds = thorough ? 30 : 4;
+  const int n_clean = thorough ? 100 : 24;
+  const int n_dirty = thorough ? 40 : 8;
   const int len = thorough ? 30 : 18;
   for (int wi = 0; wi < n_worlds; ++wi)
     {
